@@ -23,6 +23,7 @@ EXPLANATION = (
     "own insertion requires sender != own port identity and is_acceptable(sender clock identity), and the parent "
     "block requires state Slave and sender == parentDS.parent_port_identity; NI-5 Management/Signaling and event "
     "messages on the general channel reach no handler."
+    ' NI-8 (shared with C04 LEN-2): a frame is parsed only from buffer.get(34..messageLength); a datagram shorter than its declared length is rejected.'
 )
 NOT_DECIDED = "equality of the two runs at run time; that the compared values are the right ones (e.g. that the parent is acceptable)"
 
